@@ -11,10 +11,10 @@ import (
 
 func init() {
 	register(&Property{
-		ID:  "C18",
-		Run: runC18,
+		ID:          "C18",
+		Run:         runC18,
 		Explanation: "Handler-quantity helpers (both versions, structure): U1 every exported helper builds its combinations from a copy of the priorities that went through the descending sort, and hands exactly those combinations to the predicate; U2 the predicates visit every combination (range loop, false only under a failed test, true only after the loop) and give the divider the combination being visited, the quantity and a fresh distribution; U3 the zero-share test quantifies over the members of the combination (for-all over the slice, looked up in the distribution the divider just filled); U4 the suitable-predicate performs that same test before the tolerance test (suitable => non-fatal) and the limit parameter is used only as `diff > limit => false` (monotone in the limit); U5 PickUpMin* iterates 1..max upward inclusively, PickUpMax* max..1 downward, each returns the loop variable under the predicate and 0 after the loop; U6 (= C15/D8) the v2 constructor applies the same zero-share test to the full sorted set.",
-		NotDecided: []string{"that the combination generator enumerates all 2^n-1 order-preserving subsets (combinatorial induction)", "the floating-point tolerance arithmetic"},
+		NotDecided:  []string{"that the combination generator enumerates all 2^n-1 order-preserving subsets (combinatorial induction)", "the floating-point tolerance arithmetic"},
 	})
 }
 
@@ -256,6 +256,9 @@ func (p *Prog) originOf(v ssa.Value, depth int) ssa.Value {
 		sites := p.CallSites(fn)
 		if len(sites) != 1 {
 			return v
+		}
+		if _, isGo := sites[0].(*ssa.Go); isGo {
+			return v // the parameter of a goroutine entry
 		}
 		idx := paramIndex(fn, x)
 		if idx < 0 || idx >= len(sites[0].Common().Args) {
